@@ -362,19 +362,22 @@ class _Reactor:
 _H = {}
 
 
-def _hsetup():
-    if 'w' not in _H:
+def _hsetup(variant='monthly'):
+    if _H.get('variant') != variant:
         from vp.shims import schedworld
         from vp.shims.reactor import NS
 
         t3 = datetime.time(3, 0, 0)
+        third = {'monthly': dawgie.MOMENT(None, None, 8, None, t3),  # the 8th of every month 03:00
+                 'dated': dawgie.MOMENT(None, datetime.date(2024, 1, 1), None, None, datetime.time(18, 0, 0))}[variant]  # once, later on the boot day
         spec = [
             {'task': 'ta', 'name': 'a', 'kind': 'task', 'refs': [], 'events': [dawgie.MOMENT(None, None, None, 0, t3)]},  # every Monday 03:00
             {'task': 'tb', 'name': 'b', 'kind': 'analysis', 'refs': [('ta', 'a', 'sv')], 'events': [dawgie.MOMENT(True, None, None, None, None)]},  # at boot
-            {'task': 'tc', 'name': 'c', 'kind': 'task', 'refs': [], 'events': [dawgie.MOMENT(None, None, 8, None, t3)]},  # the 8th of every month 03:00
+            {'task': 'tc', 'name': 'c', 'kind': 'task', 'refs': [], 'events': [third]},
         ]
         _H['w'] = schedworld.World(spec, targets=['T1', 'T2'])
         _H['r'] = _Reactor()
+        _H['variant'] = variant
         schedule.twisted = NS(internet=NS(reactor=_H['r']))
     return _H['w'], _H['r']
 
@@ -382,12 +385,12 @@ def _hsetup():
 HEVENTS = ['ADVANCE', 'WORK', 'RELOAD', 'NEWTARGET']
 
 
-def hist_body(k, sel):
+def hist_body(k, sel, variant='monthly'):
     """boot at Monday 2024-01-01 02:58 UTC; events: ADVANCE (the next pending timer fires at its
     due instant), WORK (dispatch and let every released unit succeed, until nothing is in flight),
     RELOAD (schedule.build + periodics as state.FSM._pipeline does), NEWTARGET"""
     with rt.island():
-        w, r = _hsetup()
+        w, r = _hsetup(variant)
         w.reset()
         r.reset()
         set_clock(2024, 1, 1, 2, 58, 0)
@@ -456,7 +459,7 @@ def _hmon(w, r, fired, where):
             if m.boot is not None:
                 continue
             at = now.replace(hour=m.time.hour, minute=m.time.minute, second=m.time.second, microsecond=0)
-            today = (m.dow is not None and now.isoweekday() - 1 == m.dow) or (m.dom is not None and now.day == m.dom)
+            today = (m.dow is not None and now.isoweekday() - 1 == m.dow) or (m.dom is not None and now.day == m.dom) or (m.day is not None and now.date() == m.day)
             due = today and now >= at - datetime.timedelta(seconds=300)
             if where in ('BOOT', 'ADVANCE', 'RELOAD') and due and now.date() not in [x.date() for x in fired.get(tag, [])]:
                 rt.nontrivial()
@@ -472,7 +475,7 @@ def _hmon(w, r, fired, where):
         rt.require('tb.b' in qtags and list(qtags['tb.b'].get('todo')) == ['__all__'], 'c20:boot-not-queued', 'boot event not queued with the all-targets marker at start')
     # recurrence: a weekly/monthly event that fired and is idle again must have a timer pending for its next period
     for tag, times in fired.items():
-        if not times:
+        if not times or all(ev.moment.dow is None and ev.moment.dom is None for ev in w.nodes[tag].get('period')):
             continue
         n = w.nodes[tag]
         idle = not (n.get('todo') or n.get('doing')) and tag not in qtags
@@ -493,7 +496,7 @@ INFO = {
     'real function agree; E1: one path = one history of timer/firing/completion events',
     'functions': ['pl.schedule._delay (AST->SMT)', 'pl.schedule.defer', 'pl.schedule.periodics', 'pl.schedule.complete', 'dawgie.schedule'],
     'bounds': {
-        'quick': 'every clock instant 1970-01-01..2100-12-31 (microsecond resolution), dom 1..31, dow 0..6, any valid date 1970..2100, any time of day; histories of <=6 events (timer fires at its due instant, work completes, reload, new target) from a boot on Monday 2024-01-01 02:58 with a weekly, a monthly and a boot event',
+        'quick': 'every clock instant 1970-01-01..2100-12-31 (microsecond resolution), dom 1..31, dow 0..6, any valid date 1970..2100, any time of day; histories of <=6 events (timer fires at its due instant, work completes, reload, new target) from a boot on Monday 2024-01-01 02:58 with a weekly and a boot event plus either a monthly event or a dated event later on the boot day',
         'thorough': 'same kernel; histories of <=8 events',
     },
     'assumptions': [
@@ -518,9 +521,10 @@ def obligations(tier):
     from vp import ob
 
     free = [f'e{i}' for i in range(kk)]
-    for first in range(n):
-        out.append(ob.make(f'hist-k{kk}-{first}', 'hist', 'vp.harness.c20:hist_body', ', '.join(f'{v}: int' for v in free[1:]), [' and '.join(f'0 <= {v} < {n}' for v in free[1:])],
-                           f"{{'k': {kk}, 'sel': [{first}, {', '.join(free[1:])}]}}", timeout=900 if tier == 'quick' else 3000))
+    for variant in ('monthly', 'dated'):
+        for first in range(n):
+            out.append(ob.make(f'hist-{variant}-k{kk}-{first}', 'hist', 'vp.harness.c20:hist_body', ', '.join(f'{v}: int' for v in free[1:]), [' and '.join(f'0 <= {v} < {n}' for v in free[1:])],
+                               f"{{'k': {kk}, 'sel': [{first}, {', '.join(free[1:])}], 'variant': {variant!r}}}", timeout=900 if tier == 'quick' else 3000))
     out.append(ob.make('hist', 'hist', 'vp.harness.c20:hist_body', ', '.join(f'{v}: int' for v in free), [' and '.join(f'0 <= {v} < {n}' for v in free)],
                        f"{{'k': {kk}, 'sel': [{', '.join(free)}]}}", timeout=300, twin=True))
     return out
